@@ -22,6 +22,7 @@ RULES = [
     Rule('C16.R4', 'a created bank has 128 blank entries', 2),
     Rule('C16.R5', 'erase / free_slot / clear recycle slots completely', 5),
     Rule('C16.R7', 'the instrument converters behind opn2_setInstrument / opn2_getInstrument copy every field on every path', 2),
+    Rule('C16.R8', 'LoadBank copies every bank the parsed file holds: its bank loops run to the parsed counts', 1),
     Rule('C16.R6', 'bucket links are updated in both directions on every path; reserve adds every new slot', 4),
 ]
 EXPLANATION = ('IR call-graph reachability (no allocation below the non-expanding insert) plus CFG order / post-dominance and AST shape rules over the '
@@ -444,6 +445,7 @@ def analyse(facts, tier):
     obls.append(Obl('C16.R6', rs.name, 'every new slot goes to the free list; capacity grows by the same count', rs.loc, 'discharged' if (okr and cap) else 'finding',
                     why=form if (okr and cap) else 'cannot establish that all `need` new slots are handed to the free list while the capacity grows by `need` (%s)' % form))
     obls += r7_converters_total(facts)
+    obls += r8_load_all(facts)
     return obls
 
 
@@ -473,4 +475,58 @@ def r7_converters_total(facts):
             out.append(Obl('C16.R7', fn.name, 'total conversion', (early[0]['loc'] if early else cond[0][0] if cond else fn.loc), 'discharged' if ok else 'finding', why=why))
     if n < 2:
         raise build.AnalysisBroken('C16.R7: instrument converters not found')
+    return out
+
+
+def r8_load_all(facts):
+    """"a lookup finds a bank exactly if it was created or loaded": LoadBank must copy all banks of the parsed WOPNFile.  The loop
+    that walks a bank array (`src[set][i]`) is bounded by the matching parsed count - banks_count_melodic / banks_count_percussion,
+    directly or through the local array initialised from them - and by nothing smaller (a set can address 128 x 128 banks)."""
+    out = []
+    fns = [f for f in facts.fns.get('OPNMIDIplay::LoadBank', []) if f.tree is not None and any(short(callee_name(x)) == 'cvt_generic_to_FMIns' for b, j, st in f.cfg.stmts() for x in calls_in(st['s']))]
+    if not fns:
+        raise build.AnalysisBroken('C16.R8: the LoadBank overload that copies the banks not found')
+    fn = fns[0]
+    inits = {}
+    for b, j, st in fn.cfg.stmts():
+        if st['s'].get('k') == 'DeclStmt':
+            for v in st['s']['decls']:
+                if v.get('init') is not None:
+                    inits[v['id']] = v['init']
+    def is_count(e, depth=0):
+        e = strip(e)
+        if e is None:
+            return False
+        if e.get('k') == 'MemberExpr' and short(e.get('n', '')).startswith('banks_count_'):
+            return True
+        if e.get('k') == 'ArraySubscriptExpr':
+            base = strip(e.get('b'))
+            if base.get('k') == 'DeclRefExpr' and base.get('id') in inits:
+                # every element of the local array is a parsed count
+                elems = [y for y in walk(inits[base['id']]) if isinstance(y, dict) and y.get('k') == 'MemberExpr']
+                return bool(elems) and all(short(y.get('n', '')).startswith('banks_count_') for y in elems)
+        if depth < 2 and e.get('k') == 'DeclRefExpr' and not e.get('parm') and e.get('id') in inits:
+            i_ = strip(inits[e['id']])
+            return is_count(i_, depth + 1) and i_.get('k') in ('MemberExpr', 'ArraySubscriptExpr')
+        return False
+    n = 0
+    for x in walk(fn.tree):
+        if not (isinstance(x, dict) and x.get('k') == 'ForStmt' and x.get('cond') is not None):
+            continue
+        c = strip(x['cond'])
+        if c.get('k') != 'BinaryOperator' or c.get('op') != '<':
+            continue
+        iv = strip(c['l'])
+        # the loop variable selects a bank of a source array: src[..][iv]
+        uses = [y for y in walk(x.get('body')) if isinstance(y, dict) and y.get('k') == 'ArraySubscriptExpr' and strip(y.get('i')).get('id') == iv.get('id') and
+                strip(y.get('b')).get('k') == 'ArraySubscriptExpr']
+        if not uses:
+            continue
+        n += 1
+        ok = is_count(c['r'])
+        out.append(Obl('C16.R8', fn.name, 'bank loop %s' % show(c)[:50], '%s:%s' % (fn.file, x.get('ln')), 'discharged' if ok else 'finding',
+                       why='bounded by the parsed bank count' if ok else
+                       'the loop over the banks of the file is bounded by %s, not by the parsed count: banks beyond that bound are dropped although the load reports success' % show(c['r'])[:50]))
+    if n < 1:
+        raise build.AnalysisBroken('C16.R8: bank loops of LoadBank not found')
     return out
